@@ -914,7 +914,10 @@ func (c *stepCtx) oracleC13() {
 		for _, k := range kids {
 			want[k] = true
 		}
-		counts := uniqInts([]int{-1, 0, 1, 2, len(kids), len(kids) + 1})
+		counts := uniqInts([]int{-1, 0, 1, 2, 3, len(kids) - 1, len(kids), len(kids) + 1})
+		if counts[0] < -1 {
+			counts = counts[1:]
+		}
 		for _, n := range counts {
 			for _, variant := range []string{"Readdir", "Readdirnames"} {
 				f, err := fsys.Open(e.Path)
@@ -934,10 +937,12 @@ func (c *stepCtx) oracleC13() {
 				}
 				_ = f.Close()
 				nclass := fmt.Sprint(n)
-				if n == len(kids) && n > 2 {
+				if n == len(kids) && n > 3 {
 					nclass = "children"
-				} else if n == len(kids)+1 && n > 2 {
+				} else if n == len(kids)+1 && n > 3 {
 					nclass = "children+1"
+				} else if n == len(kids)-1 && n > 3 {
+					nclass = "children-1"
 				}
 				if err != nil {
 					c.viol("C13", fmt.Sprintf("C13|%s-error|n=%s", variant, nclass), fmt.Sprintf("history: %s\n%s(%d) on %s: %v", c.hist(), variant, n, e.Path, err))
